@@ -54,6 +54,65 @@ def ffRun (stages w : Nat) (init : Int) (i0 : Nat) (evs : List Ev) : FFState :=
 def ffOut (stages w : Nat) (init : Int) (i0 : Nat) (evs : List Ev) : Nat :=
   (ffRun stages w init i0 evs).out
 
+/-! ## FFSynchronizer: shapes of `i` and `o`, reset of `o_domain`
+
+`flops = [Signal(self.i.shape(), init=self._init, reset_less=self._reset_less) …]`: the stages have
+the shape of the input (its width *and* its signedness); `self.o.eq(flops[-1])` is an ordinary
+assignment of a `w`-bit right-hand side to a `wo`-bit signal.
+
+`m.d[o_domain] += o.eq(i)` are statements of the output domain.  Its process (`sim/_pyrtl.py`,
+`_FragmentCompiler`) computes the next values and then, `if rst:`, replaces the next value of every
+driven signal that is not `reset_less` by its `init`.  When the domain has `async_reset=True` a
+second process, woken by a rising edge of the reset, loads `init` into the driven signals that are
+not `reset_less`. -/
+
+/-- right-hand side of an assignment brought to the width of the left-hand side: a signed operand
+is extended with copies of its top bit, an unsigned one with zeros; surplus bits are dropped -/
+def extendTo (sg : Bool) (w wo : Nat) (p : Nat) : Nat :=
+  (if sg && decide (2 ^ w ≤ 2 * p) then p + (2 ^ max w wo - 2 ^ w) else p) % 2 ^ wo
+
+structure FFRState where
+  /-- `self.i` -/
+  inp : Nat
+  /-- `ResetSignal(o_domain)` -/
+  rst : Bool
+  /-- `stage0 … stage{n-1}` -/
+  flops : List Nat
+deriving Repr, DecidableEq
+
+def ffrInit (stages w : Nat) (init : Int) (i0 : Nat) : FFRState :=
+  ⟨i0 % 2 ^ w, false, List.replicate stages (signalInit w init)⟩
+
+/-- every stage back at `init` -/
+def FFRState.load (w : Nat) (init : Int) (s : FFRState) : FFRState :=
+  { s with flops := List.replicate s.flops.length (signalInit w init) }
+
+/-- body of the output domain's process at an active clock edge -/
+def ffrClock (w : Nat) (init : Int) (resetLess : Bool) (s : FFRState) : FFRState :=
+  if s.rst && !resetLess then s.load w init else { s with flops := shift s.inp s.flops }
+
+def ffrStep (w : Nat) (init : Int) (resetLess asyncDom : Bool) (s : FFRState) : REv → FFRState
+  | .ev (.set v) => { s with inp := v % 2 ^ w }
+  | .ev .iedge => s
+  | .ev .oedge => ffrClock w init resetLess s
+  | .ev .both => ffrClock w init resetLess s
+  | .rst v =>
+    let s' := { s with rst := level v }
+    -- the reset process of an `async_reset=True` domain: rising edge of the reset
+    if asyncDom && !s.rst && level v && !resetLess then s'.load w init else s'
+
+/-- `flops[-1]` -/
+def FFRState.last (s : FFRState) : Nat := s.flops.getLast?.getD 0
+
+def ffrRun (stages w : Nat) (init : Int) (resetLess asyncDom : Bool) (i0 : Nat)
+    (evs : List REv) : FFRState :=
+  evs.foldl (ffrStep w init resetLess asyncDom) (ffrInit stages w init i0)
+
+/-- `m.d.comb += self.o.eq(flops[-1])` with `o` of width `wo` -/
+def ffrOut (stages w : Nat) (sg : Bool) (wo : Nat) (init : Int) (resetLess asyncDom : Bool)
+    (i0 : Nat) (evs : List REv) : Nat :=
+  extendTo sg w wo (ffrRun stages w init resetLess asyncDom i0 evs).last
+
 /-! ## AsyncFFSynchronizer / ResetSynchronizer -/
 
 structure AsyncState where
@@ -142,5 +201,32 @@ def asyncCtor (stages : Option Int) (wi wo : Nat) (edgeOk : Bool) : Ctor :=
     else if !edgeOk then .valueError
     else .ok
   | r => r
+
+/-! ## Elaboration -/
+
+/-- the `RequirePosedge(domain)` fragments that `elaborate` of a primitive leaves in the design,
+as the list of booleans "the fragment is present":
+
+* `AsyncFFSynchronizer.elaborate`: `m.submodules += RequirePosedge(self._o_domain)` after the
+  `if self._edge == "pos": … else: …`, i.e. for both asynchronous edges;
+* `ResetSynchronizer.elaborate` returns `AsyncFFSynchronizer(…, o_domain=self._domain)` with the
+  default `async_edge="pos"`;
+* `FFSynchronizer.elaborate` adds none; `PulseSynchronizer.elaborate` contains one
+  `FFSynchronizer` and adds none itself. -/
+def asyncFFRequirements (_asyncEdgePos : Bool) : List Bool := [true]
+
+def ffRequirements : List Bool := []
+
+def posedgeRequirements : Prim → (asyncEdgePos : Bool) → List Bool
+  | .asyncFFSync, pos => asyncFFRequirements pos
+  | .resetSync, _ => asyncFFRequirements true
+  | .ffSync, _ => ffRequirements
+  | .pulseSync, _ => ffRequirements
+
+/-- `Design._check_domain_requires`: `DomainRequirementFailed` when a `RequirePosedge` fragment
+names a domain with `clk_edge != "pos"` -/
+def elaborate (p : Prim) (asyncEdgePos negDomain : Bool) : Elab :=
+  if (posedgeRequirements p asyncEdgePos).any (fun present => present && negDomain)
+  then .domainRequirementFailed else .ok
 
 end Amaranth.Cdc.Model
